@@ -66,7 +66,9 @@ class AsyncKicker(Generic[_FuncParams, _ReturnType]):
         :param labels: new labels.
         :return: kicker with new labels.
         """
-        self.labels.update(labels)
+        # Labels are replaced, not updated in place: the dict may be
+        # shared with the task (or message) the kicker was created from.
+        self.labels = {**self.labels, **labels}
         return self
 
     def with_task_id(self, task_id: str) -> "AsyncKicker[_FuncParams, _ReturnType]":
